@@ -41,7 +41,7 @@ fn dispatch(case: &Sexp) -> Option<Sexp> {
         "threads" => c18::run(head, args),
         "list-exec" | "list-ffi" | "list-name" | "list-history" => c17::run(head, args),
         "panic-prog" | "panic-2threads" | "panic-free" => c19::run(head, args, case),
-        "ffi-history" | "ffi-2threads" | "cstring-history" => c20::run(head, args),
+        "ffi-history" | "ffi-history-nohook" | "ffi-2threads" | "cstring-history" => c20::run(head, args, case),
         "exec" => lang::run_exec(args),
         "exec-value" => lang::run_exec_value(args),
         "parse" => lang::run_parse(args, false),
@@ -74,6 +74,10 @@ fn main() {
     // C18: `wfh --c18-fresh T` runs one case (stdin) whose first use of the engine is raced by T threads.
     if argv.len() == 3 && argv[1] == "--c18-fresh" {
         c18::fresh_main(argv[2].parse().unwrap_or(2));
+    }
+    // C20: `wfh --c20-nohook` runs one C API history (stdin) without installing the panic catcher's hook first.
+    if argv.len() == 2 && argv[1] == "--c20-nohook" {
+        c20::nohook_main();
     }
     // Silent hook; the first C19 case replaces it by an equally silent sentinel hook followed by
     // wirefilter's panic catcher hook (c19::install_hooks), for the rest of the process.
